@@ -159,7 +159,8 @@ func Presentations(n int, seed int64) []Presentation {
 }
 
 func quoteField(s string, all bool) string {
-	if all || strings.ContainsAny(s, ",\"\n\r") || (s != "" && (s[0] == ' ' || s[len(s)-1] == ' ')) {
+	// leading and trailing blanks need no quotes: an unquoted field keeps them
+	if all || strings.ContainsAny(s, ",\"\n\r") {
 		return `"` + strings.ReplaceAll(s, `"`, `""`) + `"`
 	}
 	return s
